@@ -8,4 +8,5 @@ EXPLANATION = ""
 
 
 def build(tier):
-    return c22.build(tier) + c22.build_kani(tier)
+    # the bounded cross-check on the real petgraph (c22.build_kani) does not finish in CBMC even for 1-node graphs (DESIGN 0A.3)
+    return c22.build(tier)
